@@ -62,87 +62,21 @@ def d17_1(ctx):
         good = isinstance(st, int) and isinstance(sp, int) and 0 <= st < sp <= 0xFFFF
         ctx.check(good, ckey(fi, "cycle-args"), c, f"0 <= start={st} < stop={sp} <= 0xFFFF (period {sp - st + 1 if good else '?'} >= 2, fits UINT)",
                   f"cycle({sp}, start={st}): needs 0 <= start < stop <= 65535 (start == stop repeats one value; stop > 65535 cannot be encoded as UINT)", start=st, stop=sp)
-    # symbolic walk yield -> yield
-    problems, npaths = [], 0
-    n_resets = [0]
-    for y in yields:
-        paths = g.paths(y, set(yields), max_visits=2)
-        for path in paths:
-            if path[-1] not in yields or len(path) < 2:
-                continue
-            # skip exceptional edges
-            skip = False
-            for a, b in zip(path, path[1:]):
-                labs = [lab for s, lab in a.succ if s is b]
-                if labs and all(l == "exc" for l in labs):
-                    skip = True
-            if skip:
-                continue
-            npaths += 1
-            state = ("prev", 0)
-            guard = None
-            bad = None
-            for a, b in zip(path, path[1:]):
-                if a.kind == "stmt" and a is not path[0] or (a is path[0] and False):
-                    pass
-                n = a
-                if n is not path[0] and n.kind == "stmt":
-                    state, note = _apply(ctx, fn, n.ast, var, state, start_p)
-                    if note:
-                        bad = note
-                if n.kind == "test":
-                    lab = [l for s, l in n.succ if s is b][0]
-                    c = cmp_norm(n.ast)
-                    if c and c[0] == "<=0" and set(c[1].terms) == {var, stop_p} and state[0] == "prev":
-                        # canonical:  coef_var*var + coef_stop*stop + const <= 0
-                        cv, cs, k0 = c[1].terms[var], c[1].terms[stop_p], c[1].const
-                        if lab is True:
-                            guard = ("true", cv, cs, k0, state[1])
-                        else:
-                            guard = ("false", cv, cs, k0, state[1])
-            if bad:
-                problems.append(bad)
-                continue
-            if state[0] == "prev":
-                if state[1] == 0:
-                    problems.append(f"a path between two yields leaves `{var}` unchanged (lines {[p.lineno for p in path if p.lineno]}): the same count is yielded twice")
-            elif state[0] == "start":
-                n_resets[0] += 1
-                # reset: feasible only under the recorded guard; need previous != start for every site
-                if guard is None:
-                    problems.append(f"`{var}` is reset to `{start_p}` unconditionally between two yields")
-                    continue
-                for fi, c, args in sites:
-                    st, sp = args.get(start_p), args.get(stop_p)
-                    if not (isinstance(st, int) and isinstance(sp, int)):
-                        continue
-                    # previous yielded value prev in [st, sp]; reset taken when guard holds for prev + k
-                    feasible_prev = [p for p in {st, st + 1, sp - 1, sp} if st <= p <= sp and _guard_holds(guard, p, sp)]
-                    if st in feasible_prev:
-                        problems.append(f"with cycle({sp}, start={st}) the reset to start can follow a yield of start itself: two consecutive messages carry the same count")
-            else:
-                problems.append(f"`{var}` takes an untracked value between two yields")
-    # values stay in range: every yield is dominated by the reset test on the non-exceeding side
-    over = []
-    for y in yields:
-        ok = False
-        for t in g.nodes:
-            if t.kind == "test":
-                c = cmp_norm(t.ast)
-                if c and c[0] == "<=0" and set(c[1].terms) == {var, stop_p}:
-                    ok = True
-        if not ok:
-            over.append(y)
-    if over:
-        problems.append("no comparison of the counter with `stop` guards the yield: counts leave the UINT range")
-    if not n_resets[0] and not problems:
-        problems.append(f"no path between two yields resets `{var}` to `{start_p}`: the counter grows past `{stop_p}` and leaves the UINT range")
-    if problems:
-        for p_ in sorted(set(problems)):
-            ctx.violation(ckey(fn, "consecutive"), func, p_, paths=npaths)
-    else:
-        ctx.ok(ckey(fn, "consecutive"), func, f"on all {npaths} yield-to-yield paths the value changes (increment != 0, or reset only after a value > start)", paths=npaths, yields=len(yields))
-    ctx.check(var is not None, ckey(fn, "yield"), func, f"yields `{var}`", "yield without a value")
+    # the sequence itself, folded on witness arguments (sa/miniinterp.py, generator mode).  The function only increments the
+    # counter and compares it with its arguments, so its behaviour on (stop, start) depends on their order alone: small witnesses
+    # decide it for the arguments of the construction sites as well
+    from ..miniinterp import run_generator
+
+    for stop_w, start_w in ((3, 0), (4, 2), (1, 0), (9, 8)):
+        kind, vals = run_generator(ctx, fn.module, func, {stop_p: stop_w, start_p: start_w}, 3 * (stop_w - start_w + 1) + 2)
+        key = ckey(fn, f"consecutive:{stop_w},{start_w}")
+        if kind == "unknown":
+            ctx.undecided(key, func, f"cycle({stop_w}, start={start_w}) not foldable: {vals}")
+            continue
+        period = list(range(start_w, stop_w + 1))
+        want = (period * 4)[: 3 * len(period) + 2]
+        ctx.check(kind == "return" and vals == want, key, func, f"cycle({stop_w}, start={start_w}) yields {want[:len(period) + 2]}...: every value of start..stop in turn, never twice in a row, never above stop",
+                  f"cycle({stop_w}, start={start_w}) yields {vals!r} (expected {want!r}): a repeated count makes the target drop a message, a count above `stop` cannot be encoded")
 
 
 def _guard_holds(guard, prev, stop):
@@ -232,18 +166,24 @@ def d17_2(ctx):
     """Every connected packet takes its count at construction from the driver generator (or next(generator)); never a stored count."""
     base, classes = _sud_classes(ctx)
     init = base.methods.get("__init__")
-    good = False
-    if init is not None:
-        p = init.args.args[1].arg
-        for n in walk(init):
-            if isinstance(n, ast.Assign) and attr_path(n.targets[0]) == "self._sequence":
-                v = n.value
-                if isinstance(v, ast.IfExp) and isinstance(v.body, ast.Call) and call_name(v.body) == "next" and atom_name(v.body.args[0]) == p and atom_name(v.orelse) == p:
-                    t = v.test
-                    good = isinstance(t, ast.Call) and call_name(t) == "isinstance" and atom_name(t.args[0]) == p
-                elif isinstance(v, ast.Call) and call_name(v) == "next" and atom_name(v.args[0]) == p:
-                    good = True
-    ctx.check(good, ckey(base.key + ".__init__"), init or base.node, "draws next(sequence) once when given the generator", "SendUnitDataRequestPacket.__init__ does not draw next(sequence) from the generator at construction")
+    # the base constructor draws exactly one count from a generator and keeps a plain count as it is: folded on both
+    from ..consteval import UNKNOWN
+    from ..miniinterp import fold_object
+
+    def gen_hook(call, env, it):
+        if call_name(call) == "isinstance" and len(call.args) == 2 and "Generator" in src(call.args[1]):
+            return isinstance(it.ev(call.args[0], env), list)  # the witness generator is a list consumed by next()
+        return UNKNOWN
+
+    gen = [7, 8, 9]
+    k1, o1 = fold_object(ctx, base, [gen], {}, gen_hook)
+    k2, o2 = fold_object(ctx, base, [5], {}, gen_hook)
+    if "unknown" in (k1, k2):
+        ctx.undecided(ckey(base.key + ".__init__"), init or base.node, f"constructor not foldable: {o1 if k1 == 'unknown' else o2}")
+    else:
+        good = k1 == k2 == "return" and o1.__dict__.get("_sequence") == 7 and gen == [8, 9] and o2.__dict__.get("_sequence") == 5
+        ctx.check(good, ckey(base.key + ".__init__"), init or base.node, "draws next(sequence) once when given the generator, keeps a count it is given",
+                  f"SendUnitDataRequestPacket(generator) stores {o1.__dict__.get('_sequence') if k1 == 'return' else (k1, o1)!r} and leaves the generator at {gen!r}; given the count 5 it stores {o2.__dict__.get('_sequence') if k2 == 'return' else (k2, o2)!r} (expected 7, [8, 9], 5)")
     # subclass constructors pass their `sequence` parameter through
     for c in classes:
         ini = c.methods.get("__init__")
@@ -262,6 +202,13 @@ def d17_2(ctx):
         a = atom_name(arg)
         params = [x.arg for x in fi.node.args.args]
         fresh = a == "self._sequence" or (isinstance(arg, ast.Call) and call_name(arg) == "next" and atom_name(arg.args[0]) in (["self._sequence"] + params)) or (how != "direct" and a in params and a == "sequence") or (a in params and a == "sequence")
+        if not fresh and isinstance(arg, ast.Name):
+            # a local bound exactly once, to a fresh draw from the generator, is that draw
+            binds = [n_ for n_ in walk(fi.node) if isinstance(n_, ast.Name) and isinstance(n_.ctx, ast.Store) and n_.id == arg.id]
+            defs = [n_ for n_ in walk(fi.node) if isinstance(n_, ast.Assign) and len(n_.targets) == 1 and atom_name(n_.targets[0]) == arg.id]
+            uses = [n_ for n_ in walk(fi.node) if isinstance(n_, ast.Name) and isinstance(n_.ctx, ast.Load) and n_.id == arg.id]
+            if len(binds) == 1 and len(defs) == 1 and len(uses) == 1 and isinstance(defs[0].value, ast.Call) and call_name(defs[0].value) == "next" and atom_name(defs[0].value.args[0]) in (["self._sequence"] + params):
+                fresh = True
         ctx.check(fresh, key, call, f"sequence argument `{a}` is the generator / a fresh draw",
                   f"sequence argument `{a}` is a stored count, not the driver generator or next(generator): two packets can carry the same count", arg=a)
         if how == "from_request":
@@ -274,22 +221,14 @@ def d17_2(ctx):
                     ctx.violation(ckey(fi, "copies-count"), n, f"`{src(n)}` reads another object's stored sequence count")
 
 
-@rule(P, "D17.3", "T-DOM", floor=1)
+@rule(P, "D17.3", "T-WITNESS", floor=1)
 def d17_3(ctx):
-    """The count is the first thing appended to the connected data, as a UINT."""
-    base, classes = _sud_classes(ctx)
-    sm = base.methods.get("_setup_message")
-    good, facts = False, {}
-    if sm is not None:
-        body = [s for s in sm.body if not (isinstance(s, ast.Expr) and isinstance(s.value, ast.Constant))]
-        appends = [s for s in body if isinstance(s, ast.Expr) and isinstance(s.value, ast.Call) and attr_path(s.value.func) in ("self._msg.append",)]
-        sup_first = bool(body) and isinstance(body[0], ast.Expr) and isinstance(body[0].value, ast.Call) and isinstance(body[0].value.func, ast.Attribute) and body[0].value.func.attr == "_setup_message"
-        if appends:
-            a = appends[0].value.args[0]
-            facts["first_append"] = src(a)
-            v = ctx.folder.eval(a.func.value, base.module) if isinstance(a, ast.Call) and isinstance(a.func, ast.Attribute) and a.func.attr == "encode" else None
-            good = sup_first and isinstance(v, ClassRef) and v.ci.name == "UINT" and atom_name(a.args[0]) == "self._sequence" and body.index(appends[0]) == 1
-    ctx.check(good, ckey(base.key + "._setup_message"), sm or base.node, "UINT.encode(self._sequence) is appended first", "the sequence count is not the first UINT appended to the connected data", **facts)
+    """The count is the first thing in the connected data, as a UINT.  Decided on witness packets: every connected request frame of
+    sa/rules/packets.py (read, write, fragmented, read-modify-write, multi-service, generic, raw) starts its data item with the
+    witness count 7 as `07 00`."""
+    from .packets import _emit
+
+    _emit(ctx, {"read-request", "write-request", "fragment-request", "bit-write", "multi-request", "generic-request", "raw-request"})
 
 
 @rule(P, "D17.4", "T-WHO", floor=1)
